@@ -666,7 +666,41 @@ func runTokenTable(p *Program, c *Collector, t TokenTblSpec) {
 				}
 			}
 			if inner != nil {
-				want = sAnd(sf.pathCond(loopHeader(inner)), want)
+				ctx := sf.pathCond(loopHeader(inner))
+				// the only thing that may keep a file's tokens from being looked at is that the file cannot be read: a condition
+				// on anything else (its content, its name) skips files
+				var other *Sym
+				var atoms func(x *Sym)
+				atoms = func(x *Sym) {
+					if x == nil || other != nil {
+						return
+					}
+					if x.Op == "not" || (x.Op == "bin" && (x.Name == "&&" || x.Name == "||")) {
+						for _, k := range x.Kids {
+							atoms(k)
+						}
+						return
+					}
+					if x.Op == "const" {
+						return
+					}
+					if x.Op == "call" && x.Name == "isnil" && len(x.Kids) == 1 && strings.Contains(x.Kids[0].String(), "extract1(") {
+						return
+					}
+					if x.Op == "bin" && (x.Name == "!=" || x.Name == "==") && len(x.Kids) == 2 {
+						a, b := x.Kids[0].String(), x.Kids[1].String()
+						if (strings.HasPrefix(a, "call:extract1(") && b == "nil") || (strings.HasPrefix(b, "call:extract1(") && a == "nil") {
+							return
+						}
+					}
+					other = x
+				}
+				atoms(ctx)
+				if other != nil {
+					c.Ob(t.Props, "E7.token-table", key, Violated, fmt.Sprintf("%s: the tokens of a file are looked at only under %s: files are skipped for a reason other than that they cannot be read", t.What, clip(other.String(), 160)), p.InstrPos(in), false)
+					return
+				}
+				want = sAnd(ctx, want)
 			}
 			res := compareSyms(got, want, "bool")
 			if res.Equal {
@@ -993,7 +1027,13 @@ func rewrittenLater(cell ssa.Value, fn *ssa.Function) ssa.Instruction {
 // DOT quoting
 
 func runDotQuoting(p *Program, c *Collector, d FuncRuleSpec) {
-	for _, fn := range expandFuncs(p, c, d.Funcs, d.Props...) {
+	listed := expandFuncs(p, c, d.Funcs, d.Props...)
+	isListed := map[*ssa.Function]bool{}
+	for _, fn := range listed {
+		isListed[fn] = true
+	}
+	var scan func(fn *ssa.Function, follow bool) int
+	scan = func(fn *ssa.Function, follow bool) int {
 		sf := newSymFn(p, fn, 0)
 		seen := map[string]bool{}
 		n := 0
@@ -1063,7 +1103,26 @@ func runDotQuoting(p *Program, c *Collector, d FuncRuleSpec) {
 				}
 			}
 		}
-		if n == 0 {
+		if n == 0 && follow {
+			// the line may be put together in a helper of the same package (dotEdge): look one call down
+			done := map[*ssa.Function]bool{}
+			for _, b := range fn.Blocks {
+				for _, in := range b.Instrs {
+					if call, ok := in.(ssa.CallInstruction); ok {
+						for _, callee := range p.ownCallees(call) {
+							if !done[callee] && !isListed[callee] && callee.Pkg == fn.Pkg && callee != fn {
+								done[callee] = true
+								n += scan(callee, false)
+							}
+						}
+					}
+				}
+			}
+		}
+		return n
+	}
+	for _, fn := range listed {
+		if scan(fn, true) == 0 {
 			c.Ob(d.Props, "E7.dot-quoting", "dotquote:"+p.FuncKey(fn), Undecided, d.What+": no quoted splice found in "+shortFn(p.FuncKey(fn))+" (anchor lost)", p.FuncPos(fn), false)
 		}
 	}
